@@ -98,3 +98,20 @@ def ref_poly(r, names, params):
 
 def point_dict(pts, k):
     return {nm: float(a[k]) for nm, a in pts.items()}
+
+
+class JetRef:
+    """Reference jet data with entry-level singularity information (used by C19)."""
+
+    def __init__(self, r, wrt, pts, P, params):
+        A = JetAlg(wrt, pts, params, np.float64, P)
+        B = JetAlg(wrt, pts, params, np.longdouble, P)
+        ja = Interp(A).ev(r)
+        jb = Interp(B).ev(r)
+        with np.errstate(all="ignore"):
+            self.eg = np.nan_to_num(np.abs(ja.g.astype(np.longdouble) - jb.g).astype(np.float64) * COND, nan=0.0, posinf=0.0)
+            self.eH = np.nan_to_num(np.abs(ja.H.astype(np.longdouble) - jb.H).astype(np.float64) * COND, nan=0.0, posinf=0.0)
+        self.v, self.g, self.H = ja.v, ja.g, ja.H
+        self.ok = A.ok & B.ok
+        self.regular = A.regular & B.regular
+        self.sing = A.sing | B.sing          # (n, P)
